@@ -8,6 +8,7 @@ import (
 	"sort"
 	"strings"
 
+	"github.com/tychoish/fun"
 	"github.com/tychoish/fun/dt"
 	"github.com/tychoish/fun/dt/cmp"
 
@@ -276,8 +277,18 @@ func c16ListProgram(r *kit.Run, idx int64, rng *rand.Rand, withKnown bool) {
 			case 5:
 				op = "Append"
 				a, b := fresh(), fresh()
-				script = append(script, fmt.Sprintf("L%d.Append(%d,%d)", li, a, b))
-				l.Append(a, b)
+				if rng.IntN(2) == 0 {
+					// the same two values arrive through an iterator
+					op = "Populate"
+					script = append(script, fmt.Sprintf("L%d.Populate(iterator of %d,%d)", li, a, b))
+					if err := l.Populate(fun.SliceIterator([]int{a, b})).Run(context.Background()); err != nil {
+						retDetail = "Populate: " + err.Error()
+						return
+					}
+				} else {
+					script = append(script, fmt.Sprintf("L%d.Append(%d,%d)", li, a, b))
+					l.Append(a, b)
+				}
 				hb := m.handleFor(l.Back())
 				ha := m.handleFor(l.Back().Previous())
 				ha.ok, ha.val, hb.ok, hb.val = true, a, true, b
